@@ -12,7 +12,7 @@ RULE = ('Evaluation = one message + its table + the high-cloud flag + the input 
 ASSUMPTIONS = ['table-driven cases inject the table/flag/MSA into a processed chunk through private attributes',
                'heights in [0, 1e5) ft; parameter leaves keep their documented meaning']
 REQUIRED = ['ceiling_after_2_lower', 'nsc_by_layer_at_or_above_msa', 'nsc_by_flag_only',
-            'ncd_with_zero_okta_rows', 'msg:NCD', 'msg:NSC', 'fam:flat', 'fam:generic', 'late_msa_edit', 'tables_n3']
+            'ncd_with_zero_okta_rows', 'n_above_eq_MAX_HITS_OKTA0_nothing_reportable', 'msg:NCD', 'msg:NSC', 'fam:flat', 'fam:generic', 'late_msa_edit', 'tables_n3']
 EXHAUSTIVE = {'quick': 'all okta tables (0..8) of <=3 layers x 2 height sets x all MSA positions x flag (table-driven part only)',
               'thorough': 'all okta tables (0..8) of <=4 layers x 2 height sets x all MSA positions x flag (table-driven part only)'}
 weight = _msg.weight
